@@ -17,7 +17,7 @@ from ..ref.swshadow import BufferPool, expected_outputs, encode_actions
 ID = "C18"
 LEVEL = "exploration"
 TECHNIQUE = "model-based stateful testing: Hypothesis-drawn and exhaustively enumerated op histories against a buffer-pool model, byte-level"
-LEVEL_TEXT = ("Exploration of operation histories: every history of up to 4 (quick) / 5 (thorough) operations over a 12-letter alphabet is "
+LEVEL_TEXT = ("Exploration of operation histories: every history of up to 4 (quick) / 5 (thorough) operations over a 13-letter alphabet is "
               "enumerated for pool sizes 0..2 (quick) / 0..4 (thorough), and Hypothesis draws histories of up to 60 operations for pool "
               "sizes 0..4; each is run against the real switch through its byte-level connection and judged step by step against an "
               "independent buffer-pool model. The property is about operation histories of a small state machine, so bounded exhaustive "
@@ -25,13 +25,14 @@ LEVEL_TEXT = ("Exploration of operation histories: every history of up to 4 (qui
 LEVEL_NOTE = ("the reference codec pvf/ref/ctlbytes.py and the model pvf/ref/swshadow.py are trusted; actions are restricted to plain outputs; "
               "a packet-out that uses a buffer carries the stored in_port so that the choice between stored and given in_port is not judged")
 RULE = ("a case is (max_buffers 0..4, initial miss_send_len, list of ops); ops are frame arrival to one of 4 destinations (a miss unless a "
-        "flow for that destination was installed earlier in the history), flow_mod with or without a buffer id, flow delete, packet_out with a "
+        "flow for that destination was installed earlier in the history), flow_mod with or without a buffer id, flow delete, port_mod setting or clearing OFPPC_NO_PACKET_IN, packet_out with a "
         "buffer id chosen relative to the model state (outstanding / already used / zero / never issued / out of range), set_config and "
         "features request; a case is non-trivial when a released id is issued again, or a packet-in had to go out unbuffered because the "
         "pool was full (size > 0), or an already-used id is used again; distinct by SHA-1 of the canonical JSON of the case")
 ASSUMPTIONS = [
-  "frames are Ethernet II with the experimental ethertype 0x88b5, so that POX's parse/re-pack is the identity and no packet-library behaviour is judged here",
-  "only output actions (physical port, IN_PORT, FLOOD, ALL, CONTROLLER) are used; a packet is not sent back out of its ingress port unless IN_PORT is named (OF 1.0 sec. 3.3)",
+  "frames are Ethernet II with the experimental ethertype 0x88b5, untagged or with one 802.1Q tag, so that POX's parse/re-pack is the identity and no packet-library behaviour is judged here",
+  "actions are outputs (physical port, IN_PORT, FLOOD, ALL, CONTROLLER), the byte-wise simple rewrites set_dl_dst / set_vlan_vid / set_vlan_pcp, and unknown or vendor actions; a packet is not sent back out of its ingress port unless IN_PORT is named (OF 1.0 sec. 3.3)",
+  "a table miss on a port with OFPPC_NO_PACKET_IN produces no packet-in and occupies no buffer; whether an output to the controller by an action still produces packet-ins for a packet from such a port is left open (all or none)",
   "a packet-out naming an outstanding buffer carries the stored in_port and no data, a flow-mod naming a buffer is an ADD/MODIFY (buffer ids are not meaningful for DELETE)",
   "after a flow-mod with an unknown buffer id the flow is deleted again, so whether a switch installs such a flow is not judged",
   "error messages in answer to unknown buffer ids or ports are allowed here (their presence is C13's concern)",
@@ -39,8 +40,8 @@ ASSUMPTIONS = [
   "a barrier request follows every state-changing controller message, so no ordering freedom of the switch is judged",
 ]
 EXHAUSTIVE_SCOPE = {
-  "quick": "all histories of length 1..4 over the 12-op alphabet _ALPHABET, for max_buffers in {0,1,2}, miss_send_len 20",
-  "thorough": "all histories of length 1..5 over the 12-op alphabet _ALPHABET for max_buffers in 0..4, miss_send_len 20",
+  "quick": "all histories of length 1..4 over the 13-op alphabet _ALPHABET, for max_buffers in {0,1,2}, miss_send_len 20",
+  "thorough": "all histories of length 1..5 over the 13-op alphabet _ALPHABET for max_buffers in 0..4, miss_send_len 20",
 }
 
 PORTS = [1, 2, 3, 4]
@@ -56,9 +57,12 @@ def _mac_dst(k):
   return bytes([0x02, 0, 0, 0, 0x01, k & 0xff])
 
 
-def _frame(dst, port, length, fill):
-  hdr = _mac_dst(dst) + bytes([0x02, 0, 0, 0, 0x02, port & 0xff]) + b"\x88\xb5"
-  n = max(0, length - 14)
+def _frame(dst, port, length, fill, vlan=None):
+  hdr = _mac_dst(dst) + bytes([0x02, 0, 0, 0, 0x02, port & 0xff])
+  if vlan is not None:
+    hdr += b"\x81\x00" + bytes([((vlan[1] & 7) << 5) | ((vlan[0] >> 8) & 0x0f), vlan[0] & 0xff])      # 802.1Q tag: pcp, vid
+  hdr += b"\x88\xb5"
+  n = max(0, length - len(hdr))
   return hdr + bytes(((fill + i) & 0xff) for i in range(n))
 
 
@@ -77,7 +81,7 @@ def _alias_risk(acts):
   """per output-to-controller action of the list: does anything that can rewrite the very same packet object
   run later (a rewrite further down the list), or does a second buffer id of the same list share the packet?"""
   idx = [i for i, a in enumerate(acts) if a[0] == "ctl"]
-  return [len(idx) > 1 or any(a[0] in ("set_dl_dst", "set_vlan_vid") for a in acts[i + 1:]) for i in idx]
+  return [len(idx) > 1 or any(a[0] in ("set_dl_dst", "set_vlan_vid", "set_vlan_pcp") for a in acts[i + 1:]) for i in idx]
 
 
 def _split_bad(acts):
@@ -100,6 +104,8 @@ class _Run(object):
     self.msl = case["miss_send_len"]
     self.sw = world.add_switch(DPID, ports=len(PORTS), max_buffers=self.maxb, miss_send_len=self.msl)
     self.pool = BufferPool(self.maxb)
+    self.nopin = set()        # ports with OFPPC_NO_PACKET_IN
+    self.hw = {}
     self.risk = {}            # buffer id -> its packet object may have been rewritten after it was buffered
     self.flows = {}           # slot -> action list
     self.xid = 100
@@ -243,10 +249,24 @@ class _Run(object):
 
   def op_frame(self, op):
     port = PORTS[op["port"] % len(PORTS)]
-    frame = _frame(op["dst"], port, op["len"], op.get("fill", 0))
+    frame = _frame(op["dst"], port, op["len"], op.get("fill", 0), op.get("vlan"))
+    if op.get("vlan") is not None:
+      self.out.label("frame-vlan-tagged")
     self.sw.rx_frame(frame, port)
     self.sw.take_emitted()
     acts = self.flows.get(op["dst"])
+    if port in self.nopin:
+      # OFPPC_NO_PACKET_IN: a miss on this port is dropped silently and must not occupy a buffer; whether a flow's
+      # output to the controller still produces a packet-in is left open (all of them, or none)
+      self.out.label("frame-on-no-packet-in-port-%s" % ("miss" if acts is None else "hit"))
+      if acts is None:
+        pins = self.split_msgs(self.recv("nopin"), "nopin")
+        if pins:
+          self.fail("packet-in-on-no-packet-in-port", "a table miss on port %d, which has OFPPC_NO_PACKET_IN set, produced a packet-in" % port)
+          for m in pins:
+            if m["buffer_id"] != cb.NO_BUFFER:
+              self.pool.store(m["buffer_id"], frame, port)
+        return
     if acts is None:
       kind = "miss"
       want = None
@@ -260,6 +280,8 @@ class _Run(object):
     if acts is None:
       want = [(self.msl, frame)]
     pins = self.split_msgs(self.recv(kind), kind)
+    if port in self.nopin and not pins:
+      return
     if len(pins) != len(want):
       self.fail("packet-in-count", "%s: %d packet-ins for a frame that calls for %d" % (kind, len(pins), len(want)), kind=kind)
     risks = _alias_risk(acts) if acts is not None else [False]
@@ -305,8 +327,10 @@ class _Run(object):
     was_risky = bool(self.risk.get(bid))
     aliased = "yes" if was_risky else "no"
     want_emits, want_ctl = expected_outputs(_model_acts(prefix), frame, in_port, PORTS)
-    if any(a[0] in ("set_dl_dst", "set_vlan_vid") for a in prefix):
+    if any(a[0] in ("set_dl_dst", "set_vlan_vid", "set_vlan_pcp") for a in prefix):
       self.out.label("use-with-rewrite")
+    if in_port in self.nopin and not pins:
+      want_ctl = []               # (left open, see op_frame)
     nothing = not emitted and not pins
     as_expected = emitted == want_emits and len(pins) == len(want_ctl)
     # what the specification lets happen:
@@ -370,6 +394,16 @@ class _Run(object):
     self.msl = op["len"]
     self.split_msgs(self.recv("set-config"), "set-config")
 
+  def op_port_mod(self, op):
+    port = PORTS[op["port"] % len(PORTS)]
+    on = (port not in self.nopin) if op.get("toggle") else bool(op.get("on"))
+    self.send(cb.port_mod(self.nxid(), port, self.hw[port], cb.OFPPC_NO_PACKET_IN if on else 0, cb.OFPPC_NO_PACKET_IN), barrier=True)
+    if on:
+      self.nopin.add(port)
+    else:
+      self.nopin.discard(port)
+    self.split_msgs(self.recv("port-mod"), "port-mod", allowed=(cb.OFPT_PORT_STATUS,))
+
   def op_features(self, op=None):
     x = self.nxid()
     self.send(cb.features_request(x))
@@ -379,6 +413,8 @@ class _Run(object):
     if len(fr) != 1:
       self.fail("features-reply-count", "%d features replies" % len(fr))
       return
+    for p in fr[0]["ports"]:
+      self.hw[p["port_no"]] = p["hw_addr"]
     if fr[0]["n_buffers"] != self.maxb:
       self.fail("n-buffers-advertised", "features reply advertises %d buffers, the switch was built with %d" % (fr[0]["n_buffers"], self.maxb))
 
@@ -401,6 +437,8 @@ class _Run(object):
         self.op_set_config(op)
       elif o == "features":
         self.op_features(op)
+      elif o == "port_mod":
+        self.op_port_mod(op)
       else:
         raise HarnessError("unknown op %r" % (o,))
       if len(self.pool.out) > self.maxb:
@@ -442,7 +480,7 @@ def run_case(case):
 
 _ALPHABET = [
   {"o": "frame", "dst": 0, "port": 0, "len": 100, "fill": 1},
-  {"o": "frame", "dst": 1, "port": 1, "len": 30, "fill": 7},
+  {"o": "frame", "dst": 1, "port": 1, "len": 30, "fill": 7, "vlan": [9, 2]},
   {"o": "pout", "buf": {"k": "live", "i": 0}, "acts": [["port", 2]]},
   {"o": "pout", "buf": {"k": "live", "i": 1}, "acts": [["port", 3], ["in_port"]]},
   {"o": "pout", "buf": {"k": "used", "i": 0}, "acts": [["port", 2]]},
@@ -452,7 +490,8 @@ _ALPHABET = [
   {"o": "set_config", "len": 14},
   {"o": "pout", "buf": {"k": "live", "i": 0}, "acts": [["ctl", 16]]},
   {"o": "pout", "buf": {"k": "live", "i": 0}, "acts": [["port", 2], ["vendor", 0x2320], ["port", 3]]},
-  {"o": "flow", "slot": 1, "buf": None, "acts": [["set_vlan_vid", 5], ["ctl", 20]], "cmd": "add"},
+  {"o": "flow", "slot": 1, "buf": None, "acts": [["set_vlan_vid", 5], ["ctl", 20], ["set_vlan_pcp", 3]], "cmd": "add"},
+  {"o": "port_mod", "port": 0, "toggle": True},
 ]
 
 
@@ -479,14 +518,18 @@ def _s_acts():
     st.just(["in_port"]), st.just(["flood"]), st.just(["all"]),
     st.sampled_from(_CFG).map(lambda n: ["ctl", n]), st.integers(0, 0xffff).map(lambda n: ["ctl", n]))
   plain = st.lists(one, min_size=0, max_size=3)
-  rewrite = st.one_of(st.integers(0, 3).map(lambda i: ["set_dl_dst", i]), st.sampled_from([0, 1, 5, 0xfff]).map(lambda v: ["set_vlan_vid", v]))
+  rewrite = st.one_of(st.integers(0, 3).map(lambda i: ["set_dl_dst", i]), st.sampled_from([0, 1, 5, 0xfff]).map(lambda v: ["set_vlan_vid", v]),
+                      st.sampled_from([0, 1, 7]).map(lambda v: ["set_vlan_pcp", v]))
   bad = st.sampled_from([["vendor", 0x2320], ["bad", 12], ["bad", 0x7777]])
   ctl = st.sampled_from(_CFG).map(lambda n: ["ctl", n])
   # rewrites ahead of an output to the controller; an action the switch cannot execute before / between / after outputs
   with_rewrite = st.tuples(st.lists(rewrite, min_size=1, max_size=2), st.lists(one, min_size=0, max_size=1), ctl, st.lists(one, min_size=0, max_size=1)).map(
       lambda t: t[0] + t[1] + [t[2]] + t[3])
   with_bad = st.tuples(st.lists(one, min_size=0, max_size=2), bad, st.lists(one, min_size=0, max_size=2)).map(lambda t: t[0] + [t[1]] + t[2])
-  return st.one_of(plain, plain, plain, plain, with_rewrite, with_bad)
+  # rewrites after an output to the controller: the buffered packet must stay what the packet-in showed
+  rewrite_after = st.tuples(st.lists(rewrite, min_size=0, max_size=1), ctl, st.lists(rewrite, min_size=1, max_size=2), st.lists(one, min_size=0, max_size=1)).map(
+      lambda t: t[0] + [t[1]] + t[2] + t[3])
+  return st.one_of(plain, plain, plain, plain, with_rewrite, with_bad, rewrite_after)
 
 
 def _s_buf():
@@ -499,14 +542,16 @@ def _s_buf():
 
 def _s_op():
   frame = st.fixed_dictionaries({"o": st.just("frame"), "dst": st.integers(0, 3), "port": st.integers(0, 3),
-                                 "len": st.one_of(st.sampled_from(_LENS), st.integers(14, 400)), "fill": st.integers(0, 255)})
+                                 "len": st.one_of(st.sampled_from(_LENS), st.integers(14, 400)), "fill": st.integers(0, 255),
+                                 "vlan": st.one_of(st.none(), st.none(), st.tuples(st.sampled_from([0, 1, 9, 0xfff]), st.integers(0, 7)).map(list))})
   pout = st.fixed_dictionaries({"o": st.just("pout"), "buf": _s_buf(), "acts": _s_acts(), "port": st.integers(0, 3)})
   flow = st.fixed_dictionaries({"o": st.just("flow"), "slot": st.integers(0, 3), "buf": st.one_of(st.none(), _s_buf()),
                                 "acts": _s_acts(), "cmd": st.sampled_from(["add", "add", "modify", "modify_strict"])})
   flow_del = st.fixed_dictionaries({"o": st.just("flow_del"), "slot": st.integers(0, 3)})
   setc = st.fixed_dictionaries({"o": st.just("set_config"), "len": st.one_of(st.sampled_from(_CFG), st.integers(0, 0xffff))})
   feat = st.just({"o": "features"})
-  return st.one_of(frame, frame, frame, frame, pout, pout, pout, flow, flow, flow_del, setc, feat)
+  pmod = st.fixed_dictionaries({"o": st.just("port_mod"), "port": st.integers(0, 3), "on": st.booleans()})
+  return st.one_of(frame, frame, frame, frame, frame, pout, pout, pout, flow, flow, flow_del, setc, feat, pmod)
 
 
 def _strategy(tier, max_len):
